@@ -353,3 +353,88 @@ Proof.
       destruct (IH f (acc ++ [t]) s1 rest Hr Hd Hc Hp1 ltac:(cbn in Hl; lia)) as (ts & s' & E' & Hdocs & Hp').
       exists (t :: ts), s'. rewrite <- app_assoc in E'. split; [exact E'|]. cbn. rewrite Hdoc, Hdocs. auto.
 Qed.
+
+(* ---- statements ---------------------------------------------------------------------------------- *)
+Definition comment_doc (c : option comment) : option (list N) := option_map cvalue c.
+Definition eol_tok : ptok := (EOL, [10]).
+
+Lemma end_statement_back c0 s rest : pt s = item_toks (comment_items c0) ++ eol_tok :: rest ->
+  exists c s', end_statement s = WOk c s' /\ comment_doc c = comment_doc c0 /\ pt s' = rest.
+Proof.
+  intros Hp. unfold end_statement. destruct c0 as [c0|]; cbn [comment_items item_toks app] in Hp.
+  - destruct (pt_cons s _ _ Hp) as (t & rs & Hr & Et & Hrs & Epop & _). rewrite Epop. cbn [wbind].
+    unfold etok in Et. injection Et as Et1 Et2. rewrite Et1.
+    assert (Hp1 : pt (mkW rs (Some t)) = eol_tok :: rest) by (rewrite pt_mk; exact Hrs).
+    destruct (pt_cons _ _ _ Hp1) as (t2 & rs2 & Hr2 & Et' & Hrs2 & Epop2 & _). rewrite Epop2. cbn [wbind].
+    unfold etok, eol_tok in Et'. injection Et' as Et1' _. rewrite Et1'.
+    eexists _, _. split; [reflexivity|]. cbn. rewrite Et2. auto.
+  - destruct (pt_cons s _ _ Hp) as (t & rs & Hr & Et & Hrs & Epop & _). rewrite Epop. cbn [wbind].
+    unfold etok, eol_tok in Et. injection Et as Et1 _. rewrite Et1.
+    eexists _, _. split; [reflexivity|]. auto.
+Qed.
+
+(* documents of fragments (descriptions by value; compared as paragraphs elsewhere) *)
+Inductive fdoc :=
+| DH (ty : list (list N)) (tags quals : list (mark * (list (list N) + list ptok))) (desc : option (list N))
+     (op : bool) (c : option (list N))
+| DA (key : list (list N)) (app : bool) (v : list ptok) (c : option (list N))
+| DD (value : list N)
+| DC (t : ptok)
+| DX.
+
+Definition fdoc_of (f : fragment) : fdoc :=
+  match f with
+  | FHeader h => DH (ref_doc (htype h)) (map tag_doc (htags h)) (map tag_doc (hquals h))
+                    (option_map dvalue (hdesc h)) (hopen h) (comment_doc (hcomment h))
+  | FAssign a => DA (ref_doc (akey a)) (aappend a) (value_doc (avalue a)) (comment_doc (acomment a))
+  | FDesc d => DD (dvalue d)
+  | FComment t => DC (etok t)
+  | FClose _ => DX
+  end.
+
+Lemma walk_value_assign_back r app v0 c0 s rest : vlx v0 ->
+  pt s = (ASSIGN, [61]) :: item_toks (value_items v0) ++ item_toks (comment_items c0) ++ eol_tok :: rest ->
+  exists f s', walk_value_assign r app s = WOk f s' /\
+               fdoc_of f = DA (ref_doc r) app (value_doc v0) (comment_doc c0) /\ pt s' = rest.
+Proof.
+  intros Hv Hp. unfold walk_value_assign.
+  destruct (pt_cons s _ _ Hp) as (t & rs & Hr & Et & Hrs & Epop & _). rewrite Epop. cbn [wbind].
+  unfold etok in Et. injection Et as Et1 _. rewrite Et1. cbn [tt_eqb tt_code N.eqb Pos.eqb negb].
+  replace (tt_eqb ASSIGN ASSIGN) with true by reflexivity. cbn [negb].
+  destruct (pop_value_top_back v0 (mkW rs (Some t)) (item_toks (comment_items c0) ++ eol_tok :: rest) Hv) as (v & s2 & Ev & Hdv & Hp2); [rewrite pt_mk; exact Hrs|].
+  rewrite Ev. cbn [wbind].
+  destruct (end_statement_back c0 s2 rest Hp2) as (c & s3 & Ee & Hdc & Hp3). rewrite Ee. cbn [wbind].
+  eexists _, s3. split; [reflexivity|]. cbn. rewrite Hdv, Hdc. auto.
+Qed.
+
+Lemma item_toks_assign a0 : item_toks (assign_items a0) =
+  ref_ptoks (akey a0) ++ (if aappend a0 then [(PLUS, [43]); (ASSIGN, [61])] else [(ASSIGN, [61])])
+  ++ item_toks (value_items (avalue a0)) ++ item_toks (comment_items (acomment a0)).
+Proof.
+  unfold assign_items. rewrite !item_toks_app, item_toks_ref. f_equal. f_equal. destruct (aappend a0); reflexivity.
+Qed.
+
+Lemma walk_statement_assign_back a0 s rest : alx a0 ->
+  pt s = item_toks (assign_items a0) ++ eol_tok :: rest ->
+  exists f s', walk_statement s = WOk f s' /\ fdoc_of f = fdoc_of (FAssign a0) /\ pt s' = rest.
+Proof.
+  intros (Hr & Hv & Hc & He) Hp. rewrite item_toks_assign, <- !app_assoc in Hp.
+  unfold walk_statement.
+  destruct (pop_reference_back s (akey a0) _ Hr Hp) as (r & s1 & E & Hl & _ & Hp1).
+  { destruct (aappend a0); cbn; discriminate. }
+  rewrite E. cbn [wbind].
+  destruct (aappend a0) eqn:Ea; cbn [app] in Hp1.
+  - assert (Hn1 : tt_eqb (next_type s1) ASSIGN = false) by (rewrite next_type_pt, Hp1; reflexivity).
+    assert (Hn2 : tt_eqb (next_type s1) PLUS = true) by (rewrite next_type_pt, Hp1; reflexivity).
+    rewrite Hn1, Hn2.
+    destruct (pt_cons s1 _ _ Hp1) as (tp & rs & Hrs0 & _ & Hrs & Epop & _). rewrite Epop. cbn [wbind].
+    assert (Hn3 : tt_eqb (next_type (mkW rs (Some tp))) ASSIGN = true) by (rewrite next_type_pt, pt_mk, Hrs; reflexivity).
+    rewrite Hn3. cbn [negb].
+    destruct (walk_value_assign_back r true (avalue a0) (acomment a0) (mkW rs (Some tp)) rest Hv) as (f & s' & Ew & Hd & Hp').
+    { rewrite pt_mk. exact Hrs. }
+    exists f, s'. split; [exact Ew|]. split; [|exact Hp']. rewrite Hd. cbn. unfold ref_doc. rewrite Hl, Ea. reflexivity.
+  - assert (Hn1 : tt_eqb (next_type s1) ASSIGN = true) by (rewrite next_type_pt, Hp1; reflexivity).
+    rewrite Hn1.
+    destruct (walk_value_assign_back r false (avalue a0) (acomment a0) s1 rest Hv Hp1) as (f & s' & Ew & Hd & Hp').
+    exists f, s'. split; [exact Ew|]. split; [|exact Hp']. rewrite Hd. cbn. unfold ref_doc. rewrite Hl, Ea. reflexivity.
+Qed.
